@@ -21,3 +21,4 @@ def run(ck):
                       ['clang 14 -O2 folding of the wrappers preserves semantics', 'pxv/bitprov.py transfer functions', 'format layout oracle transcribed from pixman.h PIXMAN_FORMAT documentation (DESIGN Appendix B.2)'])
     factors.r10f_simd_fetchers(ck, P, 'C10-R8')
     codec.r9_float_widening_format(ck, P)
+    codec.r10_accessor_presence(ck, P)
